@@ -36,6 +36,8 @@ type catEntry struct {
 	FwdRefs *bool
 	// Slow pairs make a client wait for the suite's one-minute timeout: thorough only.
 	Slow bool
+	// QuickOne names one designated test of a Slow entry that is run in the quick tier all the same.
+	QuickOne string
 	// Attempts: the designated test itself randomises (math/rand) the order of its operations, so it
 	// may legitimately pass against the faulty server now and then; it must fail at least once in
 	// Attempts runs (default and minimum 3).
@@ -496,6 +498,50 @@ func catalogue() []catEntry {
 			FwdRefs:    bp(true),
 			Slow:       true, // held operations are never answered: the client waits for the one-minute timeout
 		},
+		// acknowledgements reported with a status value other than the one the session negotiated:
+		// the deprecated OK (1) instead of RIB_PROGRAMMED and no FIB acknowledgement at all, or
+		// the unset value (0)
+		{
+			Name:       "acks-use-deprecated-ok-status-and-no-fib-ack",
+			Designated: func(t *compliance.TestSpec) bool { return t.In.RequiresFIBACK },
+			Slow:       true, // the client keeps waiting for the acknowledgement it asked for
+			QuickOne:   "Add IPv4 entry that can be programmed on the server - with FIB ACK",
+			Fault: func() *faults.Fault {
+				return &faults.Fault{Response: func(s *faults.Sess, r *spb.ModifyResponse) *spb.ModifyResponse {
+					var keep []*spb.AFTResult
+					for _, x := range r.GetResult() {
+						switch x.GetStatus() {
+						case spb.AFTResult_FIB_PROGRAMMED:
+							continue
+						case spb.AFTResult_RIB_PROGRAMMED:
+							x.Status = spb.AFTResult_OK
+						}
+						keep = append(keep, x)
+					}
+					if len(r.GetResult()) > 0 && len(keep) == 0 {
+						return nil
+					}
+					r.Result = keep
+					return r
+				}}
+			},
+		},
+		{
+			Name: "rib-acks-carry-the-unset-status",
+			Designated: names("Add IPv4 entry that can be programmed on the server - with RIB ACK",
+				"Add next-hop-group entry that can be resolved on the server, no referencing IPv4 entries - with RIB ACK"),
+			Slow: true,
+			Fault: func() *faults.Fault {
+				return &faults.Fault{Response: func(s *faults.Sess, r *spb.ModifyResponse) *spb.ModifyResponse {
+					for _, x := range r.GetResult() {
+						if x.GetStatus() == spb.AFTResult_RIB_PROGRAMMED {
+							x.Status = spb.AFTResult_UNSET
+						}
+					}
+					return r
+				}}
+			},
+		},
 		// --- requirements behind the plain "this works" tests: each of them must be able to fail ---
 		unsupportedKind("valid-additions-refused", names("Add IPv4 entry that can be programmed on the server - with RIB ACK",
 			"Add IPv4 entries that are resolved to a next-hop-group containing multiple next-hops (multiple ModifyRequests) - with RIB ACK",
@@ -754,9 +800,11 @@ func campaignFaulty(t *testing.T) {
 	col := ev.C()
 	ps := pairs()
 	slow := map[string]bool{}
+	quickOne := map[string]string{}
 	for _, e := range catalogue() {
 		if e.Slow {
 			slow[e.Name] = true
+			quickOne[e.Name] = e.QuickOne
 		}
 	}
 	// pairs in which a client waits for the suite's hard-coded one-minute timeout (measured): thorough only
@@ -767,8 +815,29 @@ func campaignFaulty(t *testing.T) {
 	sk, ns := ev.Shard()
 	// every (fault, designated test) pair once; each pair gets fresh servers, so the order is immaterial
 	cnt, bad := 0, 0
+	// pairs known to take the suite's one-minute timeout are dealt to different shards first,
+	// the others round-robin (the assignment only balances the load; every pair runs once)
+	minute := map[string]bool{
+		"second-next-hop-with-identical-contents-refused|Add two NextHops with identical contents": true,
+		"next-hop-groups-refused|Delete NHG entry successfully - RIB ACK":                          true,
+	}
+	shardOf := map[int]int{}
+	nm := 0
+	skipped := func(p [2]string) bool {
+		return !ev.Thorough() && ((slow[p[0]] && quickOne[p[0]] != p[1]) || slowPairs[p[0]+"|"+p[1]])
+	}
 	for i, p := range ps {
-		if i%ns != sk || (!ev.Thorough() && (slow[p[0]] || slowPairs[p[0]+"|"+p[1]])) {
+		if (minute[p[0]+"|"+p[1]] || slow[p[0]] || slowPairs[p[0]+"|"+p[1]]) && !skipped(p) {
+			shardOf[i] = nm % ns
+			nm++
+		}
+	}
+	for i, p := range ps {
+		sh, ok := shardOf[i]
+		if !ok {
+			sh = i % ns
+		}
+		if sh != sk || skipped(p) {
 			continue
 		}
 		c := Case{Kind: "faulty", Fault: p[0], Test: p[1]}
